@@ -72,9 +72,13 @@ def run(run):
         run.missing("C17.W2", "CellBuffer")
     else:
         for f in cb["variants"][0]["fields"]:
-            if re.match(r"^(u|i)(8|16|32|64|size)$|^f(32|64)$", f["ty"]) or re.search(r"Vec<alloc::vec::Vec<char>>|StringBuffer|Vec<alloc::string::String>$", f["ty"]):
+            ty = f["ty"]
+            content_keyed = re.match(r"^alloc::collections::btree::map::BTreeMap<svgbob::[\w:]*Cell, char>$|^alloc::vec::Vec<\(alloc::string::String, alloc::string::String\)>$|"
+                                     r"^alloc::vec::Vec<\(svgbob::[\w:]*Cell, alloc::string::String\)>$", ty)
+            scalar = re.search(r"(?<![\w:])([ui](8|16|32|64|128|size)|f32|f64)(?![\w])|::Cell(?![\w])|::Point(?![\w])", ty)
+            if (scalar and not content_keyed) or re.search(r"Vec<alloc::vec::Vec<char>>|StringBuffer|Vec<alloc::string::String>$", ty):
                 run.bad("C17.W2", "row-count-field/%s" % f["name"], where(cb),
-                        "CellBuffer.%s : %s can carry the number/length of rows, which depends on trailing blank lines and blanks" % (f["name"], f["ty"]))
+                        "CellBuffer.%s : %s can carry the number/length of rows or an extent that is not derived from the occupied cells, which depends on trailing blank lines and blanks" % (f["name"], f["ty"]))
             else:
                 run.ok("C17.W2", "CellBuffer.%s cannot carry a row count" % f["name"], where(cb), f["ty"][:70], nontrivial=False)
         b = prog.method("bounds", r"cell_buffer::CellBuffer$")
